@@ -31,9 +31,32 @@ add("C06", "tds-sim", "exploration",
     "Trusted: the recorder wrappers (instance attributes) do not perturb the run; event devices are read back from the loaded "
     "System as data. Stability of the disturbed case is not assumed.", "DESIGN.md section 4, C06")
 
+add("C04", "tds-sim", "exploration",
+    "deterministic simulation: per-iteration rule mirror from the simulator's own copies under seeded solver-forced step rejections, stale-factor faults and resume splits",
+    "Every Newton iteration of every attempted step of seeded runs (stock cases x knobs x disturbances x resumed segments) is checked against the "
+    "integration rule recomputed from the simulator's own x0/f0 copies and an independently rebuilt mass matrix; acceptance <=> |inc|<=tol, "
+    "accepted state == evaluation point - increment, rejection is an exact no-op (forced at every attempt index of three short runs: exhaustive "
+    "single-fault placement), continuity between attempts, step-size envelope, end-to-end residual, completion, and order of convergence by step "
+    "halving. Evidence, not proof.",
+    "Trusted: model-level t_const parameters and limiter x_set lists are taken as data; the solver seam returns a bounded wrong increment to force "
+    "the real rejection path. Completion is only demanded at the default tolerance on stock schedules.", "DESIGN.md section 4, C04")
+
+add("C14", "restart-sim", "exploration",
+    "deterministic simulation: interrupted run (resume / dill snapshot / crash-restart from snapshot / torn snapshot / reset) vs uninterrupted twin",
+    "A reference twin runs each seeded plan uninterrupted; the subject is interrupted at seeded points after the first disturbance (on/off grid, "
+    "at and around events, just after the first event) by resume, save_ss/load_ss (stream and file), continuing the original after save, "
+    "crash at a seeded attempt with restart from the snapshot bytes only, torn/bit-flipped snapshot, and reset()+power flow. Trajectories must "
+    "agree (bit-level when reproducible, else within 3x a step-halving estimate), the event log must neither lose nor repeat events, the time "
+    "axis must be gap- and duplicate-free, restored objects keep Tf/Teye/flags/switch index and view aliasing. Every stored grid point of a "
+    "short run is enumerated as split point for three cases.",
+    "Trusted: the twin run as reference; undetermined zero-time-constant states are excluded from comparisons; dill snapshots are costly here so "
+    "the quick tier holds at most one per plan.", "DESIGN.md section 4, C14")
+
 ENGINES = [
     {"name": "tds-sim", "path": "dst/tdssim.py", "kind_free_text": "real TDS loop under StepTap/SolverTap/TimerTap/StoreTap/ConnTap "
      "seams with seeded plans (events, segments, restarts, solver/disk/clock faults, crash points)", "serves_properties": []},
+    {"name": "restart-sim", "path": "dst/props/c14.py", "kind_free_text": "tds-sim plus interruption machinery: resume, dill snapshots in streams/"
+     "files, crash injection with restart from durable bytes only, torn snapshots, reference twin", "serves_properties": []},
 ]
 
 
